@@ -34,9 +34,9 @@ func init() {
 
 type logCore struct{ n *fakeNode }
 
-func (c logCore) Enabled(l zapcore.Level) bool        { return l >= zapcore.InfoLevel }
-func (c logCore) With([]zapcore.Field) zapcore.Core   { return c }
-func (c logCore) Sync() error                         { return nil }
+func (c logCore) Enabled(l zapcore.Level) bool      { return l >= zapcore.InfoLevel }
+func (c logCore) With([]zapcore.Field) zapcore.Core { return c }
+func (c logCore) Sync() error                       { return nil }
 func (c logCore) Check(e zapcore.Entry, ce *zapcore.CheckedEntry) *zapcore.CheckedEntry {
 	if c.Enabled(e.Level) {
 		return ce.AddCore(e, c)
@@ -92,17 +92,17 @@ type session struct {
 }
 
 type runner struct {
-	c        *evid.Case
-	p        plan
-	n        *fakeNode
-	blocks   map[uint64][]ethtypes.Log
-	sess     *session
-	restarts int
-	fatals3  int
-	fatalsQ  int
-	inconcl  string
-	conns0   int
-	reconn   int
+	c           *evid.Case
+	p           plan
+	n           *fakeNode
+	blocks      map[uint64][]ethtypes.Log
+	sess        *session
+	restarts    int
+	fatals3     int
+	fatalsQ     int
+	inconcl     string
+	startSubErr int
+	reconn      int
 }
 
 func (r *runner) expected(b uint64) []ethtypes.Log { return expectedOf(r.blocks, b) }
@@ -333,6 +333,9 @@ func (r *runner) execGroup(g op) bool {
 	n.mu.Lock()
 	subErrBase := n.nSubErr
 	n.mu.Unlock()
+	if g.AtStart {
+		subErrBase = r.startSubErr // the client may already have run into the failures armed before StreamLogs
+	}
 	seSeen := 0
 	for _, a := range g.Atoms {
 		var ok, restarted bool
@@ -586,6 +589,9 @@ func (r *runner) streamPart(ec *executionclient.ExecutionClient, from uint64) {
 				k++
 			}
 		}
+		r.n.mu.Lock()
+		r.startSubErr = r.n.nSubErr
+		r.n.mu.Unlock()
 		r.n.armSubscribeFail(k)
 	}
 	if !r.startStream(ec, from, "stream") {
